@@ -174,6 +174,12 @@ func c15FsPlan(rec *recfs.Fs, plan *faultPlan) {
 			return "" // short counts only exist for read/write
 		case kd == "unexpected-eof":
 			return ""
+		case kd == "eof": // a read returning (0, io.EOF) before the size Stat announced is reached
+			if op != "f.Read" {
+				return ""
+			}
+			plan.hit()
+			return "eof"
 		case kd == "eagain": // an errno the operating system classes as temporary
 			plan.hit()
 			return "eagain"
@@ -311,6 +317,14 @@ func c15Ops() []c15Op {
 	}))
 	bigImg := pegen.Build(pegen.Layout{PE32Plus: true, Lfanew: 0x80, Secs: []pegen.Sec{{RawSize: 8}, {RawSize: 13}}, Trailing: 70001, Big: true})
 	ops = append(ops, imgOp("authenticode.Parse + Hash (reader fault, 110 KB image: several chunks)", bigImg, func(p *authenticode.PECOFFBinary) c15Result {
+		d := p.Hash(crypto.SHA256)
+		if d == nil {
+			return c15Result{noSucc: true, err: errors.New("no digest")}
+		}
+		return c15Result{value: "digest " + hx8(d)}
+	}))
+	hugeSec := pegen.Build(pegen.Layout{PE32Plus: true, Lfanew: 0x40, Secs: []pegen.Sec{{RawSize: 200000}, {RawSize: 13}}, Trailing: 5})
+	ops = append(ops, imgOp("authenticode.Parse + Hash (reader fault, 200 KB section: reads that lie inside one hashed range)", hugeSec, func(p *authenticode.PECOFFBinary) c15Result {
 		d := p.Hash(crypto.SHA256)
 		if d == nil {
 			return c15Result{noSucc: true, err: errors.New("no digest")}
@@ -496,8 +510,14 @@ func c15Ops() []c15Op {
 		return c15Result{err: err, value: "written " + side, side: side}
 	}})
 	// filesystem: reads
+	// variable readers know how long the file is (Stat): a read that ends early is a failure for them
+	fsReadKinds := append(append([]string{}, fsKinds...), "eof")
 	fsRead := func(name string, f func(rec *recfs.Fs) (string, error)) c15Op {
-		return c15Op{name, fsKinds, func(plan *faultPlan) c15Result {
+		kinds := fsReadKinds
+		if name == "FSWrapper.ReadFile" {
+			kinds = fsKinds // the plain helper reads to the end of whatever is there
+		}
+		return c15Op{name, kinds, func(plan *faultPlan) c15Result {
 			rec := recfs.New()
 			_, enc := c15DB()
 			fh, _ := rec.Inner.Create(path.Join("/sys/firmware/efi/efivars", "db-"+refFormat(*efivar.Db.GUID)))
